@@ -123,6 +123,8 @@ def run_registry(acc, srv, key, target_pairs, star=False):
             continue
         if not rw.model:
             continue
+        if rng.random() < 0.08 and len(rw.model) >= 3:
+            rw.kill_token(rng, acc)
         if rng.random() < 0.5:
             # administrative actions before the update: pair migrations, another pair code id for future pairs, the factory's own
             # migration, direct (unauthorised) update messages: the update after them must still reach every affected pair
@@ -177,6 +179,49 @@ def run_registry(acc, srv, key, target_pairs, star=False):
     return rw
 
 
+def run_long(acc, srv, key, n_updates):
+    """a small registry, a very long history of re-registrations of its denoms (counters anywhere must not run out)"""
+    rng = sub_rng(*key)
+    rw = RegWorld(srv, rng, n_families=2)
+    regd = [d for d in rw.denoms if d in rw.reg]
+    a, b = rng.sample(regd, 2)
+    others = [x for x in rw.assets() if rw.valid(x) and x[1] not in (a, b)]
+    for a0, a1 in [(("n", a), ("n", b)), (("n", a), rng.choice(others)), (rng.choice(others), ("n", b))]:
+        if frozenset([a0, a1]) in rw.model:
+            continue
+        resp, rec = rw.create(a0, a1, None, ["owner"], (0, 0))
+        if resp["r"] == "ok":
+            rw.model[frozenset([a0, a1])] = rec
+            rw.order.append(frozenset([a0, a1]))
+    done = 0
+    for i in range(n_updates):
+        denom = a if i % 2 == 0 else b
+        newdec = (rw.reg[denom] + 1 + (i % 3)) % 19
+        full = (i % 16 == 15) or i == n_updates - 1
+        before_dig = digests(rw) if full else {}
+        r = rw.x("owner", rw.factory, {"add_native_token_decimals": {"denom": denom, "decimals": newdec}})
+        acc.ev()
+        case = {"kind": "registry", "world_key": list(key), "step": i, "denom": denom, "new_decimals": newdec, "pairs": len(rw.model)}
+        if r["r"] != "ok":
+            acc.violation("re-registration #%d of %s (a registered denom, by the owner) failed: %s" % (i + 1, denom, r.get("e", "")[:160]), case)
+            break
+        rw.reg[denom] = newdec
+        done += 1
+        if full:
+            probs, _ = verify_all(rw, acc, denom, before_dig, {}, case)
+        else:
+            probs = []
+            for rec in rw.model.values():
+                sd = rw.pair_self(rec["addr"])
+                if sd["r"] == "ok" and sd["v"]["asset_decimals"] != expected_decimals(rw, rec):
+                    probs.append("pair %s reports %s, expected %s" % (rec["addr"], sd["v"]["asset_decimals"], expected_decimals(rw, rec)))
+        if probs:
+            acc.violation("after re-registration #%d (%s -> %d): %s" % (i + 1, denom, newdec, "; ".join(probs[:3])), case)
+            break
+    acc.count("long_history_updates", done)
+    acc.cls("long_history", "n%d" % (done // 100 * 100))
+
+
 def run_shard(acc, prop, tier, seed, shard, nshards, **kw):
     srv = Server()
     try:
@@ -186,6 +231,9 @@ def run_shard(acc, prop, tier, seed, shard, nshards, **kw):
             if _core.skip_world(wi):
                 continue
             rng = sub_rng("n", seed, PROP, tier, shard, wi)
+            if (wi == 2 and shard % 4 == 0) or (tier == "thorough" and wi % 40 == 2):
+                run_long(acc, srv, (seed, PROP, tier, shard, wi, "long"), 600 if tier == "quick" else 1100)
+                continue
             tp = rng.choice([3, 8, 12, 14, 20, 33, 40]) if wi else 40
             if wi == 1:
                 tp = 38
@@ -216,6 +264,8 @@ def floors(acc, tier):
     _w.need(acc, msgs, "admin_noise_update_config_code_ok", 20)
     _w.need(acc, msgs, "admin_noise_migrate_pair_ok", 20)
     _w.need(acc, msgs, "admin_noise_padded_denom_err", 20)
+    _w.need(acc, msgs, "long_history_updates", 1500)
+    _w.need(acc, msgs, "admin_noise_kill_token_ok", 5)
     if not any("|pos01|" in k for k in acc.classes):
         msgs.append("no update where the denom sat in both positions across pairs")
     return msgs
